@@ -65,7 +65,7 @@ fn list(s: &str) -> Vec<Vec<u8>> {
     }
 }
 
-fn script(s: Option<&&str>) -> Script {
+pub fn script(s: Option<&&str>) -> Script {
     let items = match s {
         None => Vec::new(),
         Some(s) if **s == *"-" => Vec::new(),
@@ -88,7 +88,7 @@ struct Dir {
 
 /// Scripted sizes for successive polls: `0` is an injected `Poll::Pending`, `k > 0` transfers at
 /// most `k` bytes; an exhausted script transfers as much as possible.
-struct Script {
+pub struct Script {
     items: Vec<usize>,
     pos: usize,
 }
@@ -104,7 +104,7 @@ struct Shared {
     activity: u64,
 }
 
-struct End {
+pub struct End {
     rx: Rc<RefCell<Dir>>,
     tx: Rc<RefCell<Dir>>,
     rscript: Script,
@@ -226,7 +226,7 @@ fn noop_waker() -> Waker {
     unsafe { Waker::from_raw(RawWaker::new(std::ptr::null(), &VTABLE)) }
 }
 
-fn io_kind(k: io::ErrorKind) -> String {
+pub fn io_kind(k: io::ErrorKind) -> String {
     match k {
         io::ErrorKind::InvalidData => "invalid-data".into(),
         io::ErrorKind::UnexpectedEof => "unexpected-eof".into(),
@@ -278,8 +278,8 @@ fn parse_version(s: &str) -> Version {
     }
 }
 
-type TaskOut = (String, Vec<u8>);
-type Task = Pin<Box<dyn Future<Output = TaskOut>>>;
+pub type TaskOut = (String, Vec<u8>);
+pub type Task = Pin<Box<dyn Future<Output = TaskOut>>>;
 
 /// What the test application does with a negotiated stream: write the payload, flush, wait for the
 /// negotiation to complete (relevant for the lazy dialer), close the write side, read to the end.
@@ -324,6 +324,42 @@ fn listen_task(io: End, protos: Vec<Vec<u8>>, pay: Vec<u8>) -> Task {
             Ok((name, io)) => after(name, io, pay).await,
         }
     })
+}
+
+/// The real litep2p dialer as a task over one end of the scripted duplex (for the harness, which
+/// runs it against the reference implementation).
+pub fn lp_dial_task(io: End, protos: Vec<Vec<u8>>, lazy: bool, pay: Vec<u8>) -> Task {
+    dial_task(io, protos, if lazy { Version::V1Lazy } else { Version::V1 }, pay)
+}
+
+/// The real litep2p listener as a task over one end of the scripted duplex.
+pub fn lp_listen_task(io: End, protos: Vec<Vec<u8>>, pay: Vec<u8>) -> Task {
+    listen_task(io, protos, pay)
+}
+
+/// Run a dialer task and a listener task against each other over a scripted duplex (chunk sizes and
+/// `Pending` injections `dr`/`dw`/`lr`/`lw`, poll order `order`) and print the observation of the
+/// `negotiate` operation.
+pub fn run_pair(
+    a: &std::collections::HashMap<&str, &str>,
+    dialer: impl FnOnce(End) -> Task,
+    listener: impl FnOnce(End) -> Task,
+) -> String {
+    let (ed, el, dl, ld, shared) = MssBox::duplex(
+        (script(a.get("dr")), script(a.get("dw"))),
+        (script(a.get("lr")), script(a.get("lw"))),
+    );
+    let tasks = vec![dialer(ed), listener(el)];
+    let out = run(tasks, a.get("order").copied().unwrap_or("dl"), &shared);
+    let show = |o: &Option<TaskOut>| match o {
+        None => ("stuck".to_string(), "-".to_string()),
+        Some((r, read)) => (r.clone(), hx(read)),
+    };
+    let (d, dread) = show(&out[0]);
+    let (l, lread) = show(&out[1]);
+    let dw = hx(&dl.borrow().log);
+    let lw = hx(&ld.borrow().log);
+    format!("d={d} l={l} dread={dread} lread={lread} dw={dw} lw={lw}")
 }
 
 /// Poll the tasks by hand in the scripted order until all are finished; `None` for a task that
@@ -749,21 +785,11 @@ impl VerifBox for MssBox {
                 let lnames = list(a.get("listener").copied().unwrap_or("-"));
                 let dpay = unhx(a.get("dpay").copied().unwrap_or("-"));
                 let lpay = unhx(a.get("lpay").copied().unwrap_or("-"));
-                let (ed, el, dl, ld, shared) = Self::duplex(
-                    (script(a.get("dr")), script(a.get("dw"))),
-                    (script(a.get("lr")), script(a.get("lw"))),
-                );
-                let tasks = vec![dial_task(ed, dnames, version, dpay), listen_task(el, lnames, lpay)];
-                let out = run(tasks, a.get("order").copied().unwrap_or("dl"), &shared);
-                let show = |o: &Option<TaskOut>| match o {
-                    None => ("stuck".to_string(), "-".to_string()),
-                    Some((r, read)) => (r.clone(), hx(read)),
-                };
-                let (d, dread) = show(&out[0]);
-                let (l, lread) = show(&out[1]);
-                let dw = hx(&dl.borrow().log);
-                let lw = hx(&ld.borrow().log);
-                format!("d={d} l={l} dread={dread} lread={lread} dw={dw} lw={lw}")
+                run_pair(
+                    &a,
+                    |io| dial_task(io, dnames, version, dpay),
+                    |io| listen_task(io, lnames, lpay),
+                )
             }
             [role @ ("dial" | "listen"), rest @ ..] => {
                 let a = kv(rest);
